@@ -367,6 +367,11 @@ func (e mixinEngine) Gen(prop, tier string, seed uint64, idx int) *runner.Case {
 		}
 		addIdless(docs[1], 1, idless-idless/2)
 		addIdless(docs[2], 2, idless)
+		if idless == 4 && docs[0]["paths"] != nil {
+			// an id carried by a path of mixin 0 that is skipped (its key exists in the primary) does not count as taken
+			jx.AsObj(docs[1]["paths"])["/p0"] = jx.Obj{"delete": jx.Obj{"operationId": "onSkippedPath", "responses": jx.Obj{"200": jx.Obj{"description": "ok"}}}}
+			jx.AsObj(docs[2]["paths"])["/fresh"] = jx.Obj{"delete": jx.Obj{"operationId": "onSkippedPath", "responses": jx.Obj{"200": jx.Obj{"description": "ok"}}}}
+		}
 	default:
 		rng := gen.NewRng(seed, idx)
 		nm := rng.IntN(4)
